@@ -431,12 +431,18 @@ Outcome run_c09(const Case &c) {
       { std::lock_guard<std::mutex> g(peer.mx); peer.pause = false; }
     } else if (s.kind == 'X' && !peer_gone) {
       // peer goes away; the library side keeps writing: must get an error, never a signal
+      PSocketAddress *gone = p_socket_get_remote_address(ls, NULL);   // while the peer is still there
       { std::lock_guard<std::mutex> g(peer.mx); peer.close_req = true; }
       for (int i = 0; i < 400; i++) { { std::lock_guard<std::mutex> g(peer.mx); if (peer.closed) break; } usleep(1000); }
       peer_gone = true;
       p_socket_set_blocking(ls, TRUE); p_socket_set_timeout(ls, 2000);
       string b(65536, 'z'); bool got_error = false;
+      // both write entry points are used on the broken connection (p_socket_send_to on a connected stream socket is legal and has its own
+      // system call): an error is the only acceptable outcome, a SIGPIPE ends the harness through its handler
       for (int i = 0; i < 300 && !got_error; i++) { PError *err = NULL; pssize r = p_socket_send(ls, b.data(), b.size(), &err); if (r < 0) { got_error = true; if (would_block_code(err)) fail("blocking-reports-retry", "writing to a peer that has gone reported an internal retry condition: " + errstr(err)); } if (err) p_error_free(err); }
+      // the connection is known to be broken now: the other entry point must report an error as well
+      for (int i = 0; i < 3 && gone && got_error && out.verdict.empty(); i++) { PError *err = NULL; pssize r = p_socket_send_to(ls, gone, b.data(), 4096, &err); if (r >= 0) fail("peer-gone", "p_socket_send_to on a connection whose peer has gone (p_socket_send already failed) reported " + std::to_string(r) + " bytes as sent"); else if (would_block_code(err)) fail("blocking-reports-retry", "p_socket_send_to to a peer that has gone reported an internal retry condition: " + errstr(err)); if (err) p_error_free(err); }
+      if (gone) p_socket_address_free(gone);
       if (!got_error) fail("peer-gone", "writing 19 MiB to a peer that has closed its socket never failed");
       vl::stats().klass("peer_gone");
     }
